@@ -144,7 +144,9 @@ class KrylovBased:
         )
         if self.E_shift is not None:
             if isinstance(self.H, OrthogonalNpcLinearOperator):
-                self.H.orig_operator = ShiftNpcLinearOperator(self.H.orig_operator, self.E_shift)
+                # shift *inside* the projection, in a new wrapper: `H` belongs to the caller
+                shifted = ShiftNpcLinearOperator(self.H.orig_operator, self.E_shift)
+                self.H = OrthogonalNpcLinearOperator(shifted, [v.copy() for v in self.H.ortho_vecs])
             else:
                 self.H = ShiftNpcLinearOperator(self.H, self.E_shift)
         self._cache = []
